@@ -630,6 +630,14 @@ func (m *SparseIntMatrix) Import(filename string) error {
       values = append(values, int(v))
     }
   }
+  if rows < 0 || cols < 0 {
+    return fmt.Errorf("invalid sparse matrix: negative dimension")
+  }
+  for i := 0; i < len(rowIndices); i++ {
+    if rowIndices[i] < 0 || rowIndices[i] >= rows || colIndices[i] < 0 || colIndices[i] >= cols {
+      return fmt.Errorf("invalid sparse matrix: index (%d,%d) out of range", rowIndices[i], colIndices[i])
+    }
+  }
   *m = *NewSparseIntMatrix(rowIndices, colIndices, values, rows, cols)
   return nil
 }
@@ -662,6 +670,12 @@ func (obj *SparseIntMatrix) UnmarshalJSON(data []byte) error {
   }
   if len(r.Index) != len(r.Value) {
     return fmt.Errorf("invalid sparse vector")
+  }
+  if r.Rows < 0 || r.Cols < 0 {
+    return fmt.Errorf("invalid sparse matrix: negative dimension")
+  }
+  if err := checkSparseIndices(r.Index, r.Rows*r.Cols); err != nil {
+    return err
   }
   obj.values = NewSparseIntVector(r.Index, r.Value, r.Rows*r.Cols)
   obj.rows = r.Rows
